@@ -25,8 +25,14 @@ def run(tier, seed, selftest=False, replay=None):
     t0 = time.time()
     T = lambda what: os.environ.get("VERIF_VERBOSE") and print("[c07] %s at %.1fs" % (what, time.time() - t0), flush=True)
     gens = []
+    cs = {}
     if replay:
         cs = read_json(os.path.join(replay, "case.json"))["case"]
+        if "input" not in cs:          # an EV case: regenerate that program and validate its calls again
+            verdict = Verdict(PID)
+            lang, swbits, sd = cs["id"].split("#")[0].split("/")
+            run_ev(tier, seed, verdict, [(lang, dict(zip(("disUse", "disContra", "noBounds", "noParamFn"), [b == "1" for b in swbits])), [int(sd)])])
+            return verdict.finish()
         cases = [cs["input"]]
     else:
         if tier == "quick":
@@ -76,8 +82,11 @@ def run(tier, seed, selftest=False, replay=None):
                 c = tr[j["case"]]
                 verdict.add(cl, {"id": c["id"], "step": j["step"], "recorded": c["steps"][:j["step"]], "input": byid[c["id"]]},
                             "clause %s violated at step %d (%s) of history %s" % (cl, j["step"], c["steps"][j["step"] - 1]["op"], c["id"]))
+    ev = run_ev(tier, seed, verdict) if not replay else None
+    T("EV")
     rc = verdict.finish()
     write_evidence(PID, tier, seed, "model_checking", {
+        "ev_generator_issued_calls": ev,
         "states": sum(g.distinct for g in gens) + sum(v.distinct for v in vals),
         "transitions": sum(g.generated for g in gens) + sum(v.generated for v in vals),
         "traces_validated_against_impl": len(cases),
@@ -94,6 +103,35 @@ def run(tier, seed, selftest=False, replay=None):
         ["supertypes are compared for variable-free instantiations only (the code deliberately skips substitution otherwise)",
          "the result of to_type_variable_free is only required to be variable free and to mutate nothing"])
     return rc
+
+
+def run_ev(tier, seed, verdict, only=None):
+    """EV: the TypeConstructor.new / substitute_type calls issued while real programs are generated, erased and overwritten, as two-step
+    histories of HTypeHeap (given; operation), validated by the same trace spec against the finished program's class table."""
+    import typing_common as tc
+    jobs = only or tc.jobs_for(tier, seed + 41, 2, 12)
+    d = subdir("c07ev")
+
+    def ex(i):
+        lang, sw, seeds = jobs[i]
+        return json.loads(run_driver("ev_heap.py", [lang, json.dumps(sw), json.dumps(seeds), os.path.join(d, "ev%d.json" % i)], timeout=3400))
+    files = [f for fl in parallel(ex, range(len(jobs))) for f in fl]
+    files = [f for f in files if read_json(f)["cases"]]
+    vals = parallel(validate, files)
+    ncalls, kinds = 0, {}
+    for f, v in zip(files, vals):
+        cs = {c["id"]: c for c in read_json(f)["cases"]}
+        ncalls += len(cs)
+        if v.distinct != sum(len(c["steps"]) + 1 for c in cs.values()):
+            raise MachineryError("EV: validated %d states in %s" % (v.distinct, f))
+        for c in cs.values():
+            kinds[c["steps"][-1]["op"]] = kinds.get(c["steps"][-1]["op"], 0) + 1
+        for j in v.json:
+            c = cs[j["case"]]
+            for cl in j["bad"]:
+                verdict.add("EV:" + cl, {"id": c["id"], "lang": c["lang"], "step": j["step"], "steps": c["steps"], "ct": c["ct"]},
+                            "during generation of %s: %s violated by %s" % (c["id"], cl, json.dumps([{k: s[k] for k in ("op", "c", "args", "sigma", "res")} for s in c["steps"]])[:400]))
+    return {"calls_validated": ncalls, "by_operation": kinds, "programs": sum(len(j[2]) for j in jobs)}
 
 
 def selftest_run(path):
